@@ -5,7 +5,7 @@ d=$1; id=$2; own=${id%%-*}
 W=$(mktemp -d /tmp/evalchk_XXXXXX); rmdir $W
 git -C /repo worktree add -q --detach $W HEAD || { echo "$id WORKTREE-FAIL"; exit; }
 git -C $W apply $d/patch.diff 2>/dev/null || { echo "$id APPLY-FAIL"; git -C /repo worktree remove --force $W; exit; }
-cd /verif
+cd ${VDIR:-/verif}
 out=$(VERIF_REPO=$W VERIF_NO_EVIDENCE=1 ./check $own --tier quick 2>&1); rc=$?
 keys=$(echo "$out" | grep -o "^VIOLATION property=C[0-9]* .* key=[^ ]*" | sed -E 's/.*property=(C[0-9]+).*key=([^ ]+)/\1:\2/' | sort -u | head -3 | tr '\n' ' ')
 others=""
